@@ -277,7 +277,12 @@ def run_reply(c, P):
     status_text = b'Switching Protocols' if t != 'lf-in-status-text' else b'Switching  Protocols\t'
     reply = list(b'HTTP/1.1 ') + status + list(b' ') + list(status_text) + CRLF + body + CRLF
     frames = [0x81, 0x01, 0x61]      # a Text frame after the reply: must only be delivered after Ready
-    w.default_script = Script(lambda w_, s_: reply + frames, cuts=P.get('cuts', 'one'), end='eof')
+    cuts = P.get('cuts', 'one')
+    if cuts == 'first-small':
+        cuts = [1 + c.choose(6, 'first_read')]
+        if c.choose(2, 'second_read'):
+            cuts.append(1 + c.choose(3, 'second_read_size'))
+    w.default_script = Script(lambda w_, s_: reply + frames, cuts=cuts, end='eof')
     w.max_waits = 4 * (len(reply) + 8)        # byte-at-a-time delivery needs one selector wait per byte
     w.notes['hs_len'] = len(reply)
     rec = hconn.drive(w, ws, dict(poll=1e9, ping_rate=0, ping_timeout=None, close_timeout=None))
